@@ -3,6 +3,7 @@
 package main
 
 import (
+	"os"
 	"io"
 	"bytes"
 	"fmt"
@@ -27,7 +28,7 @@ func (xtalkComp) Exec(op string) (string, string, string, bool) {
 	}
 	k, _ := strconv.Atoi(f[1])
 	seed, _ := strconv.ParseUint(f[2], 10, 64)
-	rig, err := NewRig(RigOpts{Carrier: f[0], Insecure: true})
+	rig, err := NewRig(RigOpts{Carrier: f[0], Insecure: true, Relay: k > 50 && f[0] == "tcp"})
 	if err != nil {
 		return "fail:rig", err.Error(), "fail", false
 	}
@@ -110,6 +111,10 @@ func (xtalkComp) Exec(op string) (string, string, string, bool) {
 		}(i)
 	}
 	wg.Wait()
+	if rig.Relay != nil && os.Getenv("VERIF_DEBUG") != "" {
+		_, _, acc := rig.Relay.Captured()
+		fmt.Fprintf(os.Stderr, "DEBUG physical connections: %d\n", acc)
+	}
 	for _, e := range errs {
 		if e != "" {
 			return "fail", e, f[0], false
